@@ -1,14 +1,17 @@
 #!/bin/sh
-# import every seed under /tmp/seed_out/<prop>/<k>/ that is not imported yet
-# (4 in parallel); usage: import_all_seeds.sh [prop ...]
+# import every seed under $SEED_SRC/<prop>/<k>/ (default /tmp/seed_out) that is
+# not imported yet (4 in parallel); ids are <prop>-<tag><k> (tag default "s").
+# usage: [SEED_SRC=dir] [SEED_TAG=r2-] import_all_seeds.sh [prop ...]
 cd /verif
+SRC=${SEED_SRC:-/tmp/seed_out}
+TAG=${SEED_TAG:-s}
 props="$@"
-[ -z "$props" ] && props=$(ls /tmp/seed_out)
+[ -z "$props" ] && props=$(ls $SRC)
 for p in $props; do
-  for k in $(ls /tmp/seed_out/$p 2>/dev/null); do
-    d=/tmp/seed_out/$p/$k
+  for k in $(ls $SRC/$p 2>/dev/null); do
+    d=$SRC/$p/$k
     [ -f $d/patch.diff ] || continue
-    id="${p}-s${k}"
+    id="${p}-${TAG}${k}"
     [ -f /verif/seeded/$id/meta.json ] && continue
     echo "$p $d $id"
   done
